@@ -249,7 +249,7 @@ struct LieOps {
     }
   }
 
-  static constexpr OpDef def = {Tag::lie, "A", kLieNFn, kLieFn, 8, 10, 0, 0, &prep, &run};
+  static constexpr OpDef def = {Tag::lie, "A", kLieNFn, kLieFn, 10, 10, 0, 0, &prep, &run};
 };
 
 #define REG_LIE(G, NAME)  \
